@@ -935,8 +935,50 @@ func (c *Ctx) obligeClause(s *State, env *SpecEnv, kind, label string, cl *Claus
 
 func (c *Ctx) obligeClauseAt(s *State, env *SpecEnv, kind, label string, cl *Clause, pos token.Pos) {
 	// split top-level conjunctions to keep queries small? keep whole clause: one obligation per label.
+	if env.localsInPost {
+		// a postcondition may name a local variable; on a return that is reached before the variable is defined the
+		// clause says nothing (the name must be a real local of this function, otherwise it is a contract error)
+		skip := false
+		func() {
+			defer func() {
+				if r := recover(); r != nil {
+					if se, ok := r.(specError); ok && strings.HasPrefix(se.msg, "unknown identifier ") {
+						name := strings.Trim(strings.TrimPrefix(se.msg, "unknown identifier "), "\"")
+						if c.isLocalName(name) {
+							skip = true
+							return
+						}
+					}
+					panic(r)
+				}
+			}()
+			goal := env.evalBool(cl.Expr)
+			c.oblige(s, kind, label, goal, cl.Text, pos)
+		}()
+		_ = skip
+		return
+	}
 	goal := env.evalBool(cl.Expr)
 	c.oblige(s, kind, label, goal, cl.Text, pos)
+}
+
+// isLocalName: does the function under verification declare a local variable of this name?
+func (c *Ctx) isLocalName(name string) bool {
+	for _, b := range c.fn.Blocks {
+		for _, in := range b.Instrs {
+			switch x := in.(type) {
+			case *ssa.DebugRef:
+				if id, ok := x.Expr.(*ast.Ident); ok && id.Name == name {
+					return true
+				}
+			case *ssa.Alloc:
+				if x.Comment == name {
+					return true
+				}
+			}
+		}
+	}
+	return false
 }
 
 func (c *Ctx) atPanic(s *State, fr *Frame, x *ssa.Panic) {
